@@ -176,3 +176,10 @@ package PVM
 //@   ensures ok: a != 4294901760 && valid && blockstart64(interp.Program, e) ==> result0 == ExitContinue && uint64(result1) == e
 //@   ensures regs: forall(i, 0, 13, interp.Registers[i] == ite(op == 180 && i == int(instr.Dst), instr.Imm[0], old(interp.Registers[i])))
 //@   ensures frame: frame_only(interp.Registers)
+
+//@ readonly opcodeInfoTable
+
+// ---- operand pre-decoding (C03: no run-time panic for any code bytes; C01: fields hold the A.5 operands) ----
+//@ func decodeOperands
+//@   props C03
+//@   requires wf: instr != nil && int(instr.PC) < len(idata) && instr.SkipLen <= 24 && len(idata) < 4294967296
